@@ -29,6 +29,44 @@ pub struct Spec {
     /// true: the signer parsed the re-spelled document with the library and signed what it parsed
     #[serde(default)]
     pub sign_after_parse: bool,
+    /// with `inner`: a second functionary is authorised for the delegated step (threshold at most 1) and files an
+    /// ordinary, valid link with the content of the delegation's summary - the expired sub-layout is then not needed
+    /// to meet the threshold, but it is still reached through delegation
+    #[serde(default)]
+    pub beside_plain: bool,
+}
+
+/// See `Spec::beside_plain`. Returns false (world unchanged) when the delegation has no summary to copy.
+fn add_plain_beside(w: &mut World, si: usize) -> bool {
+    let f = w.links[si].clone();
+    let Body::Sub { world: inner, .. } = &f.body else { return false };
+    let link_of = |name: Option<&String>| {
+        name.and_then(|n| {
+            inner.links.iter().find_map(|l| match &l.body {
+                Body::Link { link, .. } if l.step == *n => Some(link.clone()),
+                _ => None,
+            })
+        })
+    };
+    let (Some(a), Some(b)) = (link_of(inner.layout.steps.first().map(|s| &s.name)), link_of(inner.layout.steps.last().map(|s| &s.name))) else { return false };
+    let other = stranger(37);
+    if w.layout.keys.iter().any(|k| material(k) == material(&other)) {
+        return false;
+    }
+    let Some(step) = w.layout.steps.iter_mut().find(|s| s.name == f.step) else { return false };
+    step.pubkeys.push(other.clone());
+    step.threshold = step.threshold.min(1);
+    w.layout.keys.push(other.clone());
+    let link = crate::gen::meta::LinkSpec {
+        name: f.step.clone(),
+        materials: a.materials,
+        products: b.products,
+        env: None,
+        byproducts: crate::gen::meta::ByprodSpec { return_value: Some(0), stdout: Some(String::new()), stderr: Some(String::new()), other: Default::default() },
+        command: vec![],
+    };
+    w.links.push(LinkFile { step: f.step.clone(), filed_under: other.clone(), name_field: None, symlink_store: false, body: Body::Link { link, sigs: vec![SigEntry::good(&other)], tamper: None } });
+    true
 }
 
 const YEAR_9999_END_MS: i64 = 253_402_300_799_000;
@@ -118,7 +156,7 @@ impl Property for C06 {
     fn rule() -> String {
         "Generated: otherwise valid worlds (top-level or with a delegated sub-layout); expiry = T + delta with delta in {-10y,-1d,-1h, \
          -3s..-5ms, -1ms..+1ms, +5ms..+3s, +1h,+1d,+10y, uniform within a day}; T is the wall clock (hook off) or an injected instant anywhere \
-         in 1970..9998; the document's expires text is re-spelled as the same instant, either after signing (same whole second as signed, so the \
+         in 1970..9998; the document's expires text is re-spelled as the same instant, (for delegated sub-layouts in a third of the cases beside a sufficient ordinary link of a second functionary, so that the threshold does not depend on the delegation), either after signing (same whole second as signed, so the \
          signatures stay valid) or before the signer parses and signs it with the library, in a random UTC offset (-23:59..+23:59, Z, +00:00, -00:00), with 0-9 fractional digits, optionally \
          lower-case t/z. History: the same layout, keys and link directory are verified once beforehand with the clock hook set five seconds before the expiry (verdict not judged). Oracle: clock read before (t0) and after (t1) the call; expiry < t0 => result must be Err; expiry in [t0,t1] => \
          straddled, skipped; expiry > t1 => no requirement (rejections counted). Non-trivial: expiry < t0 (or within 3 s after t1) and the \
@@ -146,10 +184,11 @@ impl Property for C06 {
             prop_oneof![3 => Just(0u8), 2 => 1u8..10],
             any::<bool>(),
             any::<bool>(),
+            prop_oneof![2 => Just(false), 1 => Just(true)],
         )
-            .prop_map(|(((world, owners), wants_inner), delta_ms, clock_ms, offset_min, zero_offset_style, fraction_digits, lowercase, sign_after_parse)| {
+            .prop_map(|(((world, owners), wants_inner), delta_ms, clock_ms, offset_min, zero_offset_style, fraction_digits, lowercase, sign_after_parse, beside_plain)| {
                 let inner = wants_inner && world.links.iter().any(|f| matches!(f.body, Body::Sub { .. }));
-                Spec { world, owners, delta_ms, clock_ms, offset_min, zero_offset_style, fraction_digits, lowercase, inner, sign_after_parse }
+                Spec { world, owners, delta_ms, clock_ms, offset_min, zero_offset_style, fraction_digits, lowercase, inner, sign_after_parse, beside_plain }
             })
             .boxed()
     }
@@ -179,6 +218,7 @@ impl Property for C06 {
             o.class("more-than-8-delegated-steps");
         }
         let inner = spec.inner && sub_index.is_some();
+        let beside = inner && spec.beside_plain && add_plain_beside(&mut w, sub_index.unwrap());
         if inner {
             if let Body::Sub { world, .. } = &mut w.links[sub_index.unwrap()].body {
                 world.layout.expires = signed_secs;
@@ -240,6 +280,9 @@ impl Property for C06 {
         let Some(r) = r else { return o };
         o.class(if spec.clock_ms.is_some() { "clock:injected" } else { "clock:wall" });
         o.class(if inner { "layout:inner" } else { "layout:top" });
+        if beside {
+            o.class("inner-beside-sufficient-plain-link");
+        }
         o.class(if spec.sign_after_parse { "signed:after-parse" } else { "signed:before-respelling" });
         o.class(match spec.offset_min {
             None => "offset:Z",
@@ -263,7 +306,7 @@ impl Property for C06 {
         if expired {
             o.class("expired");
             if r.is_ok() {
-                o.fail(format!("C06/accepted-expired/{}/{}{}", if inner { "inner" } else { "top" }, if spec.clock_ms.is_some() { "injected-clock" } else { "wall-clock" },
+                o.fail(format!("C06/accepted-expired/{}/{}{}", if beside { "inner-beside-sufficient-plain-link" } else if inner { "inner" } else { "top" }, if spec.clock_ms.is_some() { "injected-clock" } else { "wall-clock" },
                         if spec.offset_min.map(|x| x != 0).unwrap_or(false) { "/offset" } else { "" }),
                     format!("in_toto_verify = Ok with expires {:?} = {} ms, verification instant {} ms", text, expiry_ms, t0), "Err: layout expired");
             }
@@ -281,6 +324,9 @@ impl Property for C06 {
                 if let Body::Sub { world, .. } = &mut f.body {
                     world.layout.expires = far;
                 }
+            }
+            if beside {
+                add_plain_beside(&mut c, sub_index.unwrap());
             }
             let cdir = env.fresh_dir("c06c");
             in_toto::verif_hooks::set_clock(spec.clock_ms.map(|ms| chrono::DateTime::from_timestamp_millis(ms).expect("instant")));
